@@ -704,7 +704,8 @@ Definition ftype_ok (ty : N) : Prop :=
 Definition QF (t : N) (x : msg) : Prop := m_to x = l -> m_term x <= t /\ ftype_ok (m_type x).
 
 Definition qpresF (r r' : raft) : Prop :=
-  Forall (QF (r_term r)) (r_msgs r) -> Forall (QF (r_term r)) (r_msgs r').
+  (Forall (QF (r_term r)) (r_msgs r) -> Forall (QF (r_term r)) (r_msgs r')) /\
+  incl (r_msgs r) (r_msgs r').
 
 (* term, vote, role, leader, configuration and the election timer state *)
 Definition tkeeps (r r' : raft) : Prop :=
@@ -725,6 +726,7 @@ Lemma send_QF r m0 r' :
   qpresF r r'.
 Proof.
   intros H Ht Hv. apply send_shape in H. destruct H as (m' & -> & A1 & A2 & _ & A4).
+  split; [|cbn; apply incl_appl, incl_refl].
   intros F. cbn. apply Forall_app. split; [exact F|]. constructor; [|constructor].
   intros Hto. rewrite A1. split; [|exact Ht].
   destruct (is_vote_type (m_type m0)).
@@ -734,12 +736,12 @@ Qed.
 
 Lemma qpresF_trans a b c : keeps a b -> qpresF a b -> qpresF b c -> qpresF a c.
 Proof.
-  intros K Q1 Q2. apply keeps_fields in K. destruct K as (T & _). unfold qpresF in *.
-  rewrite T in Q2. intros F. apply Q2, Q1, F.
+  intros K [Q1 N1] [Q2 N2]. apply keeps_fields in K. destruct K as (T & _).
+  rewrite T in Q2. split; [intros F; apply Q2, Q1, F|eapply incl_tran; eassumption].
 Qed.
 
 Lemma qpresF_same r r' : r_msgs r' = r_msgs r -> qpresF r r'.
-Proof. unfold qpresF. intros ->. auto. Qed.
+Proof. unfold qpresF. intros ->. split; [auto|apply incl_refl]. Qed.
 
 Lemma ftype_AppendResponse : ftype_ok MsgAppendResponse.
 Proof. repeat split; discriminate. Qed.
@@ -860,7 +862,8 @@ Proof.
       assert (Hrt : ftype_ok (resp_type m))
         by (unfold resp_type; destruct (m_type m =? MsgRequestVote); repeat split; discriminate).
       assert (Hpush : forall rej t ci, qpresF r (push r (vote_resp r m (resp_type m) rej t ci))).
-      { intros rej t ci F. unfold push. cbn. apply Forall_app. split; [exact F|].
+      { intros rej t ci. split; [|unfold push; cbn; apply incl_appl, incl_refl].
+        intros F. unfold push. cbn. apply Forall_app. split; [exact F|].
         constructor; [|constructor]. intros X. cbn in X. congruence. }
       apply step_body_vote in Hb; [|exact Ht].
       destruct Hb as [_ [(G & _ & ->)|(_ & _ & ci & _ & Hm)]].
@@ -878,7 +881,7 @@ Proof.
         + apply tkeeps_FF; [repeat split|apply Hpush|exact Hnfl].
       - apply maybe_commit_by_vote_cases in Hm. destruct Hm as [E|([S|S] & _)]; [|cbn in S; congruence..].
         apply tkeeps_FF; [rewrite E; repeat split| |exact Hnfl].
-        intros F. rewrite E. cbn. apply Hpush, F. }
+        rewrite E. exact (Hpush true (r_term r) ci). }
     rewrite Hs in H. unfold step_follower in H.
     assert (Hfwd : forall r', send r (m <| m_to := r_leader_id r |>) = Ok r' -> ftype_ok (m_type m) ->
                    is_vote_type (m_type m) = false -> from_leader m = false -> FF m r r').
